@@ -126,6 +126,13 @@ func govcC09Blocks() []govcC09Block {
 				`<tr><td>2020</td><td>135000 <span style="display:none">hidtdn` + fmt.Sprint(s) + `</span></td><td>harbour office</td></tr>` +
 				`<tr><td>2021</td><td>150500</td><td>harbour office, revised</td></tr></tbody></table>`
 		}},
+		{key: "table-controls", retained: textRetained("tablectl"), build: func(s int, p bool) string {
+			// a sortable / filterable data table: buttons in the column headers, a select and an input in a cell
+			return `<table><caption>Freight per year ` + mk("tablectl", s) + `</caption><thead><tr><th><button type="button">Year sortasc` + fmt.Sprint(s) + `</button></th><th>Containers <button>sort</button></th><th>Source</th></tr></thead><tbody>` +
+				`<tr><td>2019</td><td>120000</td><td><select name="src"><option>annual report</option><option>harbour office</option></select></td></tr>` +
+				`<tr><td>2020</td><td>135000</td><td>harbour office <input type="text" value="filter"> <textarea>note` + fmt.Sprint(s) + `</textarea></td></tr>` +
+				`<tr><td>2021</td><td>150500</td><td>revised <svg width="10" height="10"><title>icon` + fmt.Sprint(s) + `</title><circle r="4"></circle></svg></td></tr></tbody></table>`
+		}},
 		{key: "table-img", retained: func(s int, res *Result) bool {
 			return govcC09HasSrc(res, "table img", "src", fmt.Sprintf("chart%d.png", s))
 		}, build: func(s int, p bool) string {
@@ -373,7 +380,7 @@ func TestGovcViewsReplay(t *testing.T) {
 	seen := map[string]bool{}
 	defer func() {
 		fmt.Printf("GOVC-CASES evaluations=%d distinct_nontrivial=%d rule=%s\n", evals, nontrivial,
-			"articles = 2-3 long prose paragraphs (48 words each) with one or two probe blocks between them: 20 block kinds (paragraph, inline markup+br, paragraph with hidden spans, ul, ol, blockquote, pre, h2, data table, table with images, figure with caption link + hidden span x {display:none, visibility:hidden, aria-hidden}, figure without caption link, figure with picture, img src+srcset, picture, video with fallback text, youtube iframe, tweet) singly and in all ordered pairs, with <title>+matching h1; plus text-only kinds in all ordered pairs x {empty <title>, no <title>} with punctuation-free ascii prose for the WordCount check; plus srcset shapes (keys srcset/...): 7 kinds of candidate URLs (plain, commas in the path as written by image CDNs in two styles, commas in the query, data: URIs, encoded spaces, parentheses) x 9 descriptor styles (density, width, none, upper-case density and width, fractional density, first or last candidate without descriptor, width+height) x 6 separators (comma+space, comma only, space+comma+space, comma+newline+tabs, trailing comma, leading/trailing white space) x 7 carriers (img, img without src, picture>source, figure>img, figure>picture>source, img in a data table, lazy data-srcset) with absolute URLs, and x 2 separators with relative URLs and Options.OriginalURL; srcset candidates of Result.Node are split as the HTML standard prescribes (self-tested parser). Text/HTML compared (a) with all white space removed and (b) as word sequences where every text node is a run of its own and . ? ! , ; are separate tokens; non-trivial = every probe block of the case was retained in the result (marker word in Text / element in Node), the text has at least 50 words and, for WordCount, no title was detected; a srcset case is non-trivial when its image element is in Result.Node with its srcset and ContentImages lists a candidate of it")
+			"articles = 2-3 long prose paragraphs (48 words each) with one or two probe blocks between them: 21 block kinds (data table with buttons/select/input/textarea/svg in its cells, paragraph, inline markup+br, paragraph with hidden spans, ul, ol, blockquote, pre, h2, data table, table with images, figure with caption link + hidden span x {display:none, visibility:hidden, aria-hidden}, figure without caption link, figure with picture, img src+srcset, picture, video with fallback text, youtube iframe, tweet) singly and in all ordered pairs, with <title>+matching h1; plus text-only kinds in all ordered pairs x {empty <title>, no <title>} with punctuation-free ascii prose for the WordCount check; plus srcset shapes (keys srcset/...): 7 kinds of candidate URLs (plain, commas in the path as written by image CDNs in two styles, commas in the query, data: URIs, encoded spaces, parentheses) x 9 descriptor styles (density, width, none, upper-case density and width, fractional density, first or last candidate without descriptor, width+height) x 6 separators (comma+space, comma only, space+comma+space, comma+newline+tabs, trailing comma, leading/trailing white space) x 7 carriers (img, img without src, picture>source, figure>img, figure>picture>source, img in a data table, lazy data-srcset) with absolute URLs, and x 2 separators with relative URLs and Options.OriginalURL; srcset candidates of Result.Node are split as the HTML standard prescribes (self-tested parser). Text/HTML compared (a) with all white space removed and (b) as word sequences where every text node is a run of its own and . ? ! , ; are separate tokens; non-trivial = every probe block of the case was retained in the result (marker word in Text / element in Node), the text has at least 50 words and, for WordCount, no title was detected; a srcset case is non-trivial when its image element is in Result.Node with its srcset and ContentImages lists a candidate of it")
 	}()
 	blocks := govcC09Blocks()
 
